@@ -9,8 +9,9 @@ bounds), the parents matrix stays a flat array, `node_ids_translation_` is a fun
 
 Release-build behaviour: the `CELER_ASSERT`s are compiled out.  Where a failed assertion would
 let a null `NodeId` flow into `CsgTree::insert` (undefined behaviour: out-of-bounds read in
-`NodeSimplifier`), the model stops with `.error "assert"`; `std::get<Joined>` on a non-join
-(`add_negation_for_operands` does not de-alias) is `.error "bad-variant"`.
+`NodeSimplifier`), the model stops with `.error "assert"`; `std::get<Joined>` on a non-join is
+`.error "bad-variant"` (since repo commit 9889e64 `add_negation_for_operands` de-aliases the id
+first, so this can only happen for a node that is not a join even after following aliases).
 No Mathlib import.
 -/
 import CelerVerif.Model.Csg
@@ -83,7 +84,7 @@ def isNegated : Node → Bool
 def addNegationForOperands (t : Tree) : Nat → Nat → DMFlags → Except String DMFlags
   | 0, _, _ => .error "fuel"
   | fuel + 1, nodeId, fl =>
-    match t.get nodeId with          -- `std::get<Joined>(tree_[node_id])`: not de-aliased
+    match dealiased t nodeId with    -- `std::get<Joined>(tree_[this->dealias(node_id)])`
     | .joined _ operands =>
       foldE (fun fl operand =>
         let target := dealiased t operand
